@@ -30,7 +30,7 @@ def register(reg):
     A("HostnameField", allow_ipv4="bool", resolve="bool")
     A("BytesField", encoding="str")
     A("FilenameField", exists="none|bool|str", startdir="opt:str")
-    A("ChallengeField", algorithm="any")
+    A("ChallengeField", algorithm="hashalg")
     A("SecureField", method="any")
     A("VirtualField", getter="ref:function", setter="opt:ref:function")
     A("InstanceMethodField", method="ref:function")
